@@ -22,9 +22,9 @@ import (
 	"fmt"
 	"os"
 	"path/filepath"
-	"regexp"
 	"strings"
 
+	"github.com/tdewolff/parse/v2"
 	pcss "github.com/tdewolff/parse/v2/css"
 
 	"verifharness/h"
@@ -56,106 +56,113 @@ func c04bEvGroups(evs []c04Event) string {
 
 // ---------- narrow triggers of the open known findings (decided on the parser tokens of the input) ----------
 
-func c04bHasUpper(b []byte) bool {
-	for _, c := range b {
-		if c >= 'A' && c <= 'Z' {
-			return true
-		}
-	}
-	return false
-}
-
-var c04bHexEscEnd = regexp.MustCompile(`\\[0-9a-fA-F]{1,6}$`)
-
-// c04bSelTriggers: clause "selector"
-func c04bSelTriggers(ts []c04Tok, trig map[string]string) {
-	inAttr := false
-	type fctx struct{ keep bool }
-	var stack []fctx
-	prevColon := false
-	for i, t := range ts {
-		d := string(t.data)
-		if inAttr {
-			if t.tt == pcss.RightBracketToken {
-				inAttr = false
-			} else if t.tt == pcss.IdentToken && i > 0 {
-				p := ts[i-1]
-				prevIdentLike := p.tt == pcss.IdentToken || (p.tt == pcss.StringToken && len(p.data) > 2 && c04IsIdent(p.data[1:len(p.data)-1]))
-				if prevIdentLike && !(d == "i" || d == "I") {
-					trig["selector"] = "K-C04B-1" // attrIdentGlued
-				}
-				if p.tt == pcss.StringToken && len(p.data) > 2 && c04IsIdent(p.data[1:len(p.data)-1]) && c04bHexEscEnd.Match(p.data[1:len(p.data)-1]) && (d == "i" || d == "I") {
-					trig["selector"] = "K-C04B-4" // attrEscapeFlag
-				}
-			}
-			continue
-		}
-		keep := len(stack) > 0 && stack[len(stack)-1].keep
-		switch {
-		case t.tt == pcss.LeftBracketToken:
-			inAttr = true
-		case t.tt == pcss.FunctionToken:
-			name := strings.ToLower(d[:len(d)-1])
-			k := keep
-			if prevColon {
-				k = !(c04bSelListFns[name] || c04bNthFns[name] || c04bFoldFns[name])
-			}
-			stack = append(stack, fctx{k})
-		case t.tt == pcss.LeftParenthesisToken:
-			stack = append(stack, fctx{keep})
-		case t.tt == pcss.RightParenthesisToken:
-			if len(stack) > 0 {
-				stack = stack[:len(stack)-1]
-			}
-		case t.tt == pcss.IdentToken:
-			dotBefore := i > 0 && ts[i-1].tt == pcss.DelimToken && string(ts[i-1].data) == "."
-			if keep && c04bHasUpper(t.data) && !dotBefore {
-				trig["selector"] = "K-C04B-3" // caseSensitivePseudoArg
-			}
-			if !keep && !dotBefore && c04bHasUpper(t.data) && i+1 < len(ts) && ts[i+1].tt == pcss.DelimToken && string(ts[i+1].data) == "|" {
-				trig["selector"] = "K-C04B-2" // nsPrefixUpper
-			}
-		}
-		prevColon = t.tt == pcss.ColonToken
-	}
-}
-
-func c04bIsBgSizeNum(t c04Tok) bool {
-	return t.tt == pcss.NumberToken || t.tt == pcss.PercentageToken || t.tt == pcss.DimensionToken || t.tt == pcss.FunctionToken
-}
-
-var c04bBoxRe = regexp.MustCompile(`(?i)^(border-box|padding-box)$`)
+var c04bFontSizeBreak = map[string]bool{"xx-small": true, "x-small": true, "small": true, "medium": true, "large": true, "x-large": true, "xx-large": true, "smaller": true, "larger": true, "inherit": true, "initial": true, "unset": true}
 
 // c04bDeclTriggers: clauses "declaration value" and "crash"
 func c04bDeclTriggers(prop string, vals []c04Tok, css2 bool, trig map[string]string) {
 	if k := c04Trigger(prop, vals, css2); k != "" {
 		trig["declaration value"] = k
 	}
-	if prop != "background" {
-		return
-	}
-	var nz []c04Tok
-	for _, t := range vals {
-		if t.tt != pcss.WhitespaceToken {
-			nz = append(nz, t)
-		}
-	}
-	boxes := 0
-	for i, t := range nz {
-		if t.tt == pcss.CommaToken {
-			boxes = 0
-		}
-		if t.tt == pcss.IdentToken && c04bBoxRe.Match(t.data) {
-			boxes++
-			if boxes >= 3 {
-				trig["crash"] = "K-C04B-8" // bgBoxStale
-				trig["declaration value"] = "K-C04B-8"
+	if prop == "font" {
+		var nz []c04Tok
+		for _, t := range vals {
+			if t.tt != pcss.WhitespaceToken {
+				nz = append(nz, t)
 			}
 		}
-		// bgSizeAsPosition: `/` followed by two numeric size values
-		if t.tt == pcss.DelimToken && string(t.data) == "/" && i+2 < len(nz) && c04bIsBgSizeNum(nz[i+1]) && c04bIsBgSizeNum(nz[i+2]) {
-			trig["declaration value"] = "K-C04B-7"
+		sizeLike := func(t c04Tok) bool {
+			switch t.tt {
+			case pcss.DimensionToken, pcss.PercentageToken, pcss.FunctionToken:
+				return true
+			case pcss.NumberToken:
+				return len(t.data) > 0 && strings.Trim(string(t.data), "+-0.eE") == ""
+			case pcss.IdentToken:
+				return c04bFontSizeBreak[strings.ToLower(string(t.data))]
+			}
+			return false
 		}
+		sized := false // a size candidate (or a slash) was seen
+		for i := 0; i+1 < len(nz); i++ {
+			if sized && nz[i].tt == pcss.IdentToken && c04bFontSizeBreak[strings.ToLower(string(nz[i].data))] && (nz[i+1].tt == pcss.IdentToken || nz[i+1].tt == pcss.StringToken) {
+				trig["declaration value"] = "K-C04B-10" // fontFamilySizeWord
+			}
+			if sizeLike(nz[i]) || (nz[i].tt == pcss.DelimToken && string(nz[i].data) == "/") {
+				sized = true
+			}
+		}
+	}
+}
+
+// c04bCommentGlue: a comment directly between two non-white-space tokens (decided on the lexer tokens of the source,
+// comments included) inside the block of an at-rule the dependency parser does not know (raw), or in a selector /
+// at-rule prelude (prelude); declaration values are fine (the parser turns such a comment into a space).
+func c04bCommentGlue(src string, inline bool) (raw, prelude bool) {
+	l := pcss.NewLexer(parse.NewInputString(src))
+	type frame struct {
+		kind    byte // 'r' rule list, 'd' declaration list, 'x' raw
+		inValue bool
+	}
+	stack := []frame{{kind: 'r'}}
+	if inline {
+		stack[0].kind = 'd'
+	}
+	pendingKind := byte(0) // block kind of the at-rule whose prelude is being read
+	var prev, prev2 pcss.TokenType
+	for {
+		tt, data := l.Next()
+		if tt == pcss.ErrorToken {
+			return
+		}
+		top := &stack[len(stack)-1]
+		if prev == pcss.CommentToken && prev2 != pcss.WhitespaceToken && prev2 != pcss.CommentToken && prev2 != pcss.ErrorToken && tt != pcss.WhitespaceToken && tt != pcss.CommentToken {
+			if top.kind == 'x' {
+				raw = true
+			} else if pendingKind != 0 || top.kind == 'r' || !top.inValue {
+				// a comment around the colon of a declaration or next to a brace / semicolon separates nothing
+				sep := func(t pcss.TokenType) bool {
+					return t == pcss.ColonToken || t == pcss.SemicolonToken || t == pcss.LeftBraceToken || t == pcss.RightBraceToken || t == pcss.CommaToken
+				}
+				if !sep(prev2) && !sep(tt) {
+					prelude = true
+				}
+			}
+		}
+		switch tt {
+		case pcss.AtKeywordToken:
+			if top.kind != 'x' {
+				switch c04bBareName(string(data)) {
+				case "media", "supports", "document", "keyframes":
+					pendingKind = 'r'
+				case "font-face", "page":
+					pendingKind = 'd'
+				default:
+					pendingKind = 'x'
+				}
+			}
+		case pcss.ColonToken:
+			if top.kind == 'd' && pendingKind == 0 {
+				top.inValue = true
+			}
+		case pcss.SemicolonToken:
+			top.inValue = false
+			pendingKind = 0
+		case pcss.LeftBraceToken:
+			k := byte('d')
+			if top.kind == 'x' {
+				k = 'x'
+			} else if pendingKind != 0 {
+				k = pendingKind
+			}
+			pendingKind = 0
+			top.inValue = false
+			stack = append(stack, frame{kind: k})
+		case pcss.RightBraceToken:
+			if len(stack) > 1 {
+				stack = stack[:len(stack)-1]
+			}
+			stack[len(stack)-1].inValue = false
+		}
+		prev2, prev = prev, tt
 	}
 }
 
@@ -164,21 +171,23 @@ func c04bTriggers(evs []c04Event, css2 bool) map[string]string {
 	for _, e := range evs {
 		switch e.gt {
 		case pcss.QualifiedRuleGrammar, pcss.BeginRulesetGrammar:
-			c04bSelTriggers(e.vals, trig)
-		case pcss.DeclarationGrammar:
-			c04bDeclTriggers(string(e.data), e.vals, css2, trig)
-		case pcss.AtRuleGrammar:
-			if string(e.data) == "@import" && len(e.vals) == 2 && e.vals[1].tt == pcss.URLToken {
-				u := e.vals[1].data
-				if len(u) > 4 && u[len(u)-1] == ')' && u[4] != '"' && u[4] != '\'' {
-					inner := strings.Trim(string(u[4:len(u)-1]), " \t\r\n\f")
-					if len(inner) == 1 {
-						trig["at-rule prelude"] = "K-C04B-5" // importUrlOneChar
-					} else if len(inner) > 0 && (inner[0] == '"' || inner[0] == '\'') {
-						trig["at-rule prelude"] = "K-C04B-6" // importUrlSpaceQuote
+			inAttr := false
+			for i, t := range e.vals {
+				if t.tt == pcss.LeftBracketToken {
+					inAttr = true
+				} else if t.tt == pcss.RightBracketToken {
+					inAttr = false
+				} else if inAttr && t.tt == pcss.IdentToken && i > 0 {
+					p := e.vals[i-1]
+					d := string(t.data)
+					identLike := p.tt == pcss.IdentToken || (p.tt == pcss.StringToken && len(p.data) > 2 && c04IsIdent(p.data[1:len(p.data)-1]) && !strings.Contains(string(p.data), "\\"))
+					if identLike && !(d == "i" || d == "I" || d == "s" || d == "S") {
+						trig["selector"] = "K-C04B-11" // attrIdentGlued
 					}
 				}
 			}
+		case pcss.DeclarationGrammar:
+			c04bDeclTriggers(string(e.data), e.vals, css2, trig)
 		case pcss.BeginAtRuleGrammar:
 			// the dependency parser drops white space in front of a colon in every at-rule prelude
 			if strings.HasSuffix(string(e.data), "supports") {
@@ -226,6 +235,15 @@ func c04bRun(c *Ctx, st *h.Stage, cases []c04bCase) error {
 		out, err, crash := c04Minify(k.src, k.inline, k.css2)
 		inEv, perr := c04Parse(k.src, k.inline)
 		trig := c04bTriggers(inEv, k.css2)
+		if raw, prelude := c04bCommentGlue(k.src, k.inline); raw || prelude {
+			id := "K-C04B-13" // preludeCommentGlue
+			if raw {
+				id = "K-C04B-12" // rawBlockCommentGlue
+			}
+			for _, cl := range []string{"raw token", "structure", "selector", "declaration value", "at-rule prelude", "at-rule name", "property name", "event kind"} {
+				trig[cl] = id
+			}
+		}
 		if crash != "" {
 			st.Count(k.key(), true)
 			if id := trig["crash"]; id != "" {
@@ -245,7 +263,7 @@ func c04bRun(c *Ctx, st *h.Stage, cases []c04bCase) error {
 		j := &c04bJudged{k: k, out: out, perr: perr, trig: trig}
 		// (b) independent oracle on lexer-level rule trees
 		ta, tb := c04bTree(k.src, k.inline), c04bTree(out, k.inline)
-		j.junk = c04bHasJunk(ta)
+		j.junk = c04bHasJunk(ta) || c04bUnbalanced(k.src)
 		j.oracle = c04bSameTree(ta, tb, "", &j.pairs)
 		if j.oracle != "" {
 			j.pairs = nil
